@@ -16,6 +16,10 @@ get_html (both switches); get_f12 (both switches); for K >= 4 also the file writ
 Parts:  'o' outcomes x all views - the original product with unit-scale Hessians and identification_threshold
 1e-5, plus the product (parameter scaling: unit / all tiny / one or two badly scaled parameters / all huge) x
 (identification_threshold of the results object: constructor default, 0, 1e-9, 1e-5, 1e-2, 1, 1e4) x outcome, plus
+the product (UNITS of the parameters: every parameter in units of 2^-E or 2^+E, E on a ladder with one rung per
+decade up to 2^40, or each parameter in its own large unit 2^-27..2^-31 - a coefficient of a variable measured in
+very large units: estimates and standard errors down to 1e-12 / up to 1e+12 with the same t, p, correlations and
+pairwise tests as in unit scale) x outcome (K = 1..3 and a slice with K >= 4), plus
 the 'wide' outcomes with K = 4, 5, 6 parameters (where the list of pairs (i, j), i > j, has more than one plausible
 order, K = 5 fills exactly one line of ten F12 correlations and K = 6 needs a second one): product of Hessian family
 (diagonal / tridiagonal / dense / rank K-1 / rank 1 / zero row) x BHHH x estimates x bootstrap sample (fewer / as many
@@ -24,6 +28,7 @@ sample of ONE replication (the whole bootstrap family is undefined and skipped, 
 'c' compile_estimation_results over all ordered tuples of 1..3 models from a pool x all 2^5 flag combinations x the
 list of statistic rows (default / init-model rows / null-model rows / the rows a model has only conditionally; a row
 that a model of the tuple does not have may be refused with a KeyError naming it, else its cell is empty);
+the pool also holds two models in very large units (tables of 1..2 models, thorough 1..3, with at least one of them);
 'p' the same call with every entry given as a results object / the name of its pickle file / a name behind which
 nothing can be read (missing, corrupt, foreign pickle, empty file, directory) - full product of the kinds over the
 positions - and compile_results_in_directory on the same files;  'l' likelihood_ratio_test over the full grid of
@@ -31,7 +36,8 @@ ordered pairs ((L1,K1),(L2,K2)) x level, function and method form, INCLUDING equ
 equal parameter counts (no test exists: only a refusal reports no figure);
 'r' real estimations (real BIOGEME objects with 1, 2 and 4 parameters, bootstrap resamples owned through
 numpy.random.randint - also tapes of a single replication -, the identification_threshold parameter of BIOGEME; one
-logit starts from non-zero values so that its initial and null log likelihood differ).
+logit starts from non-zero values so that its initial and null log likelihood differ; a least-squares model and a
+logit without constant whose variables are in units of 2^30 / 2^27 / 2^33 / 2^40 (by VERIF_SEED)).
 """
 from __future__ import annotations
 
@@ -50,7 +56,8 @@ TECHNIQUE = ('bounded exhaustive enumeration of synthetic raw estimation outcome
              'exact-rational recomputation of the quantity its label names')
 RULE = ('cases: (o) one case per (raw outcome, view[, switch]) with outcome = element of the product K x Hessian x BHHH x '
         'estimates x (null, init) log likelihood x bootstrap sample x bounds x sample size [x parameter scaling x '
-        'identification threshold], K = 1..3 with every subset of the names for get_correlation_results, K = 4..6 with '
+        'identification threshold | x units of the parameters: all in 2^-E / 2^+E, E in {13,17,20,23,27,30,33,37,40} (quick: '
+        '+20,+27,+33,+40,-20,-30,-40), or one large unit per parameter (2^-27..2^-31)], K = 1..3 with every subset of the names for get_correlation_results, K = 4..6 with '
         'the leave-one-out subsets (a slice with all 2^K subsets) and the F12 report also read back from write_f12; (c) one case per (ordered tuple of 1..3 pool models, 5 flags, statistics list); '
         '(statistics list: default / init rows / null rows / conditional rows); (p) one case per (ordered tuple of 1..3 pool models, kind of each entry - object / pickle file / one of the '
         'unreadable kinds -, call form dict / directory, flags); (l) one case per ordered pair ((L1,K1),(L2,K2)), alpha and call form, ties and equal parameter counts included; '
@@ -63,7 +70,10 @@ ASSUMPTIONS = [
     'domain: at most 6 parameters; Hessians are negative semi-definite with entries on a small dyadic grid (exactly singular or condition '
     'number < 100), optionally rescaled by a diagonal congruence with powers of two (eigenvalues of -H down to 2^-28, '
     'condition number up to about 1e9, still far from floating-point singularity; the library agrees with the exact '
-    'reference to 1e-12 there); rescaled outcomes whose robust sandwich has an entry that is an exact or near '
+    'reference to 1e-12 there) or expressed in other units (all parameters rescaled by the same 2^E, |E| <= 40, which '
+    'keeps the condition number, or by 2^27..2^31 each, which multiplies it by at most 2^8; standard errors from '
+    'about 1e-12 to 1e+12; there the absolute part of the tolerance of a standard error / covariance is taken in '
+    'the unit of the parameter / relative to the largest entry of the matrix: the tolerance of the same outcome in unit scale); rescaled outcomes whose robust sandwich has an entry that is an exact or near '
     'cancellation (ratio > 1e6) are excluded and counted; cells whose formula is undefined (zero variance, non-positive pair variance, zero initial '
     'likelihood, every figure of the bootstrap family when the sample holds a single replication - the library shows '
     'NaN standard errors with t = 0, p = 1 there, a convention that is neither checked nor demanded) are skipped and counted, not compared; a statistic within 1e-9 of the threshold of the LR test is a fragile verdict (counted); so are pairwise tests whose variance '
@@ -235,9 +245,27 @@ HSC_KINDS = ['unit', 'tiny', 'mixed', 'mixed2', 'huge']
 THR_KINDS = {'e-5': 1e-5, 'default': None, 'e-2': 1e-2, 'one': 1.0, 'e+4': 1e4, 'zero': 0.0, 'e-9': 1e-9}
 
 
+# units of the parameters over many decades (the 'u' kinds).  A coefficient of a variable expressed in very large units
+# (an income in raw currency units, 1e9) is tiny and so is its standard error, a coefficient of a variable in very
+# small units is huge; t, p, correlations and pairwise tests do not depend on the units, standard errors scale with
+# the unit and (co)variances with its square.  'u+E' / 'u-E': EVERY parameter in units of 2^-E / 2^+E (D = 2^E: the
+# Hessian and BHHH are multiplied by 4^E, estimates, bootstrap replications and standard errors by 2^-E; a uniform
+# power-of-two rescaling is exact in floating point and leaves the condition number alone); 'umix': every parameter
+# in its own large unit (D_i = 2^UNIT_MIX[i], ratios up to 2^4: the condition number grows by at most 2^8).
+# The ladder has about one rung per decade of the standard error, from 1e-12 to 1e+12 (unit scale: 0.3 .. 3).
+UNIT_MIX = [30, 28, 31, 29, 27, 30]
+UNIT_LADDER = [13, 17, 20, 23, 27, 30, 33, 37, 40]
+UNIT_KINDS_QUICK = ('u+20', 'u+27', 'u+33', 'u+40', 'umix', 'u-20', 'u-30', 'u-40')
+UNIT_KINDS = tuple(f'u+{e}' for e in UNIT_LADDER) + ('umix',) + tuple(f'u-{e}' for e in UNIT_LADDER)
+
+
 def scale_vector(kind, k):
     if kind == 'unit':
         return [1.0] * k
+    if kind == 'umix':
+        return [2.0 ** e for e in UNIT_MIX[:k]]
+    if kind[0] == 'u' and kind[1] in '+-':
+        return [2.0 ** int(kind[1:])] * k
     if kind == 'tiny':
         return [2.0 ** -12] * k
     if kind == 'huge':
@@ -306,7 +334,8 @@ def materialise(d, seed):
                 bootstrap=boot, bounds=bounds_of(d['bd'], values), n=n, nobs=nobs,
                 gradient=[0.001 * (i + 1) for i in range(k)], excluded=3, threads=2,
                 label=A_FAMILY[k][d['h']][0] + ('' if d.get('hsc', 'unit') == 'unit' else '*' + d['hsc']),
-                thr=THR_KINDS[d.get('thr', 'e-5')], f12file=bool(d.get('ff')), subsets=d.get('ss'))
+                thr=THR_KINDS[d.get('thr', 'e-5')], f12file=bool(d.get('ff')), subsets=d.get('ss'),
+                unit=[1.0 / x for x in dsc] if d.get('hsc', 'unit')[0] == 'u' and d.get('hsc', 'unit') != 'unit' else None)
 
 
 def outcome_space(tier, seed):
@@ -353,6 +382,26 @@ def scale_space(tier, seed):
             if k == 1 and hsc == 'mixed':
                 continue  # for K = 1 the same matrix as 'tiny'
             out.append(dict(k=k, h=h, b=b, v=v, boot=boot, bd=bd, null='present', init='present', n=0, hsc=hsc, thr=thr))
+    return out
+
+
+def units_space(tier, seed):
+    """part 'o' continued: the product (units of the parameters: ladder of powers of two, see UNIT_KINDS) x outcome,
+    K = 1..3 with every view, plus a slice with K = 4 (quick) / 4, 5, 6 (thorough) parameters."""
+    if tier == 'quick':
+        kinds, bs, vs, boots, bds = UNIT_KINDS_QUICK, ('info', 'generic'), (0,), ('none', 'r3'), ('none',)
+        wide = [((4,), ('u+30', 'umix'), ('generic',), (0,), ('none', 'r5'), ('none',))]
+    else:
+        kinds, bs, vs, boots, bds = UNIT_KINDS, tuple(B_KINDS), (0,), ('none', 'r3', 'const'), ('none', 'active')
+        wide = [(WIDE_K, ('u+20', 'u+27', 'u+30', 'u+40', 'umix', 'u-30'), ('generic',), (0,), ('none', 'r8'), ('none',))]
+    out = []
+    for k in (1, 2, 3):
+        for h, hsc, b, v, boot, bd in itertools.product(range(len(A_FAMILY[k])), kinds, bs, vs, boots, bds):
+            out.append(dict(k=k, h=h, b=b, v=v, boot=boot, bd=bd, null='present', init='present', n=0, hsc=hsc))
+    for ks, kinds, bs, vs, boots, bds in wide:
+        for k in ks:
+            for h, hsc, b, v, boot, bd in itertools.product(range(len(A_FAMILY[k])), kinds, bs, vs, boots, bds):
+                out.append(dict(k=k, h=h, b=b, v=v, boot=boot, bd=bd, null='present', init='present', n=0, hsc=hsc, ff=1))
     return out
 
 
@@ -480,7 +529,7 @@ def fragile_zero_variances(r, m, ref):
         mat = getattr(r.data, pre + 'varCovar', None)
         if f is None or mat is None or f.get('undefined'):
             continue
-        scale = max(1.0, max(abs(x) for row in f['cov'] for x in row))
+        scale = cov_scale(m, f)
         for i in range(m['k']):
             if isnum(f['se'][i]) and f['se'][i] == 0.0 and -ATOL * scale <= mat[i, i] < 0:
                 out.add((fam, i))
@@ -541,10 +590,12 @@ class Checker:
         except (TypeError, ValueError):
             return 'non-numeric'
 
+        floor = 1e-9 * min(1.0, unit_floor(self.m))  # 1e-9 in the smallest unit of the outcome (unit scale: 1e-9)
+
         def same(v, name):
             if spec is not None:  # a formatted figure: equal when it prints the same
-                return (abs(v) > 1e-9 or name == 'estimate') and format(o, spec) in fmt_variants(float(v), spec)
-            return (abs(v) > 1e-9 or name == 'estimate') and close(o, float(v), 1e-9, 1e-9)
+                return (abs(v) > floor or name == 'estimate') and format(o, spec) in fmt_variants(float(v), spec)
+            return (abs(v) > floor or name == 'estimate') and close(o, float(v), floor, 1e-9)
         # same kind of quantity in another family first (robust, classical, bootstrap), then anything else;
         # coincidences with 0 are not a diagnosis
         kind = expected_name.split(' ', 1)[1] if ' ' in expected_name else expected_name
@@ -671,10 +722,26 @@ def param_ref(ck, i, fam, field):
     return None if f is None else f[field][i]
 
 
+def unit_floor(m):
+    """the smallest unit of a parameter of the outcome (1 for every outcome outside the 'u' kinds of parameter units)"""
+    return min(m.get('unit') or [1.0])
+
+
+def cov_scale(m, f):
+    """the magnitude to which the absolute tolerance of a covariance entry is relative: the largest entry of the
+    matrix, but not less than the square of the smallest unit (outside the 'u' kinds: not less than 1, as ever).
+    An outcome in units of 2^-E is the unit-scale outcome with every covariance multiplied by 4^-E exactly (the
+    rescaling is a power of two), so this is the tolerance of the unit-scale outcome in the new units."""
+    return max(unit_floor(m) ** 2, max(abs(x) for row in f['cov'] for x in row))
+
+
 def param_tol(ck, i, fam, field):
     if field == 'p':
         t = ck.ref['fam'][fam]['t'][i]
         return p_tol(t) if isnum(t) else ATOL
+    if field == 'se':  # the absolute part of the tolerance is taken in the unit of the parameter ('u' kinds)
+        u = ck.m.get('unit')
+        return ATOL * u[i] if u else ATOL
     return ATOL
 
 
@@ -684,7 +751,7 @@ def pair_tol(ck, i, j, fam, field):
         t = f['pair_t'][i][j]
         return p_tol(t) if isnum(t) else ATOL
     if field == 'cov' and not f.get('undefined'):
-        return ATOL * max(1.0, max(abs(x) for row in f['cov'] for x in row))
+        return ATOL * cov_scale(ck.m, f)
     return ATOL
 
 
@@ -759,7 +826,8 @@ def view_estimated_parameters(r, ck, only_robust):
             elif c == 'Active bound':
                 ck.num(view, lab, name, obs, 1.0 if ck.ref['active'][i] else 0.0, None, 'active-bound flag')
             elif c == bootcol:
-                ck.num(view, lab, name, obs, param_ref(ck, i, 'bootstrap', 'se'), named, 'bootstrap std err')
+                ck.num(view, lab, name, obs, param_ref(ck, i, 'bootstrap', 'se'), named, 'bootstrap std err',
+                       param_tol(ck, i, 'bootstrap', 'se'))
             elif c in PARAM_COLS:
                 fam, fld = PARAM_COLS[c]
                 ck.num(view, lab, name, obs, param_ref(ck, i, fam, fld), named, f'{fam} {FIELD_NAME[fld]}',
@@ -946,6 +1014,13 @@ def tasks(tier, seed):
     space = wide_space(tier, seed)
     for i in range(0, len(space), CHUNK_WIDE):
         t.append(dict(part='o', seed=seed, outcomes=space[i:i + CHUNK_WIDE]))
+    space = units_space(tier, seed)
+    narrow = [d for d in space if d['k'] <= 3]
+    for i in range(0, len(narrow), CHUNK):
+        t.append(dict(part='o', seed=seed, outcomes=narrow[i:i + CHUNK]))
+    wide = [d for d in space if d['k'] > 3]
+    for i in range(0, len(wide), CHUNK_WIDE):
+        t.append(dict(part='o', seed=seed, outcomes=wide[i:i + CHUNK_WIDE]))
     t += extra_tasks(tier, seed)
     return t
 
@@ -987,7 +1062,11 @@ POOL = [
     dict(k=3, h=5, b='generic', v=2, boot='r5', bd='wide', null='present', init='present', n=2, lls=0.5),
     dict(k=1, h=1, b='scaled', v=1, boot='none', bd='near', null='absent', init='equal', n=1, lls=-0.75),
     dict(k=3, h=1, b='rank1', v=1, boot='r4', bd='none', null='present', init='present', n=0, lls=1.25),
+    # models whose parameters are in very large units (tiny estimates and standard errors, ordinary t), see UNIT_KINDS
+    dict(k=2, h=1, b='generic', v=0, boot='none', bd='none', null='present', init='present', n=0, lls=-2.5, hsc='u+30'),
+    dict(k=3, h=2, b='generic', v=1, boot='r3', bd='none', null='present', init='present', n=2, lls=0.75, hsc='umix'),
 ]
+POOL_UNITS = (7, 8)
 STATS_DEFAULT = ('Number of estimated parameters', 'Sample size', 'Final log likelihood',
                  'Akaike Information Criterion', 'Bayesian Information Criterion')
 STATS_ALT = ('Rho-square-bar for the init. model', 'Likelihood ratio test for the init. model',
@@ -1017,6 +1096,13 @@ def compile_tasks(tier, seed):
     for ln in ((1, 2) if tier == 'quick' else (1, 2, 3)):
         for tup in itertools.permutations(range(7), ln):
             t.append(dict(part='c', seed=seed, tuple=list(tup), stats=['null', 'free', 'obs'], flagset='formatted-x-short'))
+    # tables with a model in very large units: every ordered tuple of 1..2 (thorough: 1..3) models from a sub-pool that
+    # holds at least one of them x all 2^5 flags
+    sub = (1,) + POOL_UNITS if tier == 'quick' else (0, 1, 4) + POOL_UNITS
+    for ln in ((1, 2) if tier == 'quick' else (1, 2, 3)):
+        for tup in itertools.permutations(sub, ln):
+            if set(tup) & set(POOL_UNITS):
+                t.append(dict(part='c', seed=seed, tuple=list(tup), stats=stats))
     return t
 
 
@@ -1497,9 +1583,19 @@ REAL_DATA4 = [
 ]
 # 'logit2i': the logit with non-zero starting values - its initial log likelihood differs from its null log likelihood
 # (with the starting values 0 of 'logit2' the two coincide and the rows of one cannot be told from the other's)
-REAL_MODELS = ['ls1', 'ls2', 'logit2', 'ls4', 'logit2i']
-REAL_K = {'ls1': 1, 'ls2': 2, 'logit2': 2, 'ls4': 4, 'logit2i': 2}
-REAL_N = {'ls1': 4, 'ls2': 4, 'logit2': 6, 'ls4': 6, 'logit2i': 6}
+# 'ls1u' / 'logit2u': the variables are expressed in very large units (x 2^E; the second variable of the logit
+# x 2^(E-2)), so that the estimates and their standard errors are tiny (about 2^-E) while t is ordinary; the logit
+# has no constant (a constant would be a parameter in unit scale next to one in units of 2^-E: condition number 4^E)
+REAL_MODELS = ['ls1', 'ls2', 'logit2', 'ls4', 'logit2i', 'ls1u', 'logit2u']
+REAL_K = {'ls1': 1, 'ls2': 2, 'logit2': 2, 'ls4': 4, 'logit2i': 2, 'ls1u': 1, 'logit2u': 2}
+REAL_N = {'ls1': 4, 'ls2': 4, 'logit2': 6, 'ls4': 6, 'logit2i': 6, 'ls1u': 4, 'logit2u': 6}
+REAL_UNIT_EXP = [30, 27, 33, 40]
+
+
+def real_units(model, seed):
+    """units of the parameters of a real model (None: unit scale)"""
+    e = REAL_UNIT_EXP[seed % 4]
+    return {'ls1u': [2.0 ** -e], 'logit2u': [2.0 ** -e, 2.0 ** (2 - e)]}.get(model)
 LOGIT_START = [(0.5, -0.25), (-0.25, 0.5), (0.25, 0.75), (-0.5, -0.5)]
 REAL_THR = ['one', 'e+4']
 
@@ -1513,7 +1609,21 @@ def real_biogeme(model, seed, nboot, thr='default'):
     from biogeme.parameters import Parameters
 
     names = NAME_POOLS[seed % 4]
-    if model in ('logit2', 'logit2i'):
+    units = real_units(model, seed)
+    if model == 'logit2u':
+        data = dict(LOGIT_DATA[seed % 2])
+        data['x1'] = [x / units[0] for x in data['x1']]
+        data['x2'] = [x / units[1] for x in data['x2']]
+        d = db.Database('c08real', pd.DataFrame(data))
+        v = {1: Beta(names[2][0], 0.0, None, None, 0) * Variable('x1'),
+             2: Beta(names[2][1], 0.0, None, None, 0) * Variable('x2')}
+        ll = models.loglogit(v, None, Variable('choice'))
+    elif model == 'ls1u':
+        data = dict(REAL_DATA[seed % 4])
+        data['x'] = [x / units[0] for x in data['x']]
+        d = db.Database('c08real', pd.DataFrame(data))
+        ll = -((Variable('y') - Beta(names[1][0], 0.0, None, None, 0) * Variable('x')) ** 2)
+    elif model in ('logit2', 'logit2i'):
         data = LOGIT_DATA[seed % 2]
         d = db.Database('c08real', pd.DataFrame(data))
         s0 = LOGIT_START[seed % 4] if model == 'logit2i' else (0.0, 0.0)
@@ -1540,7 +1650,7 @@ def real_biogeme(model, seed, nboot, thr='default'):
     b = bb.BIOGEME(d, ll, parameters=Parameters(), generate_html=False, generate_pickle=False,
                    save_iterations=False, number_of_threads=1, bootstrap_samples=max(nboot, 1), **extra)
     b.modelName = 'c08real_' + model
-    if model in ('logit2', 'logit2i'):
+    if model in ('logit2', 'logit2i', 'logit2u'):
         b.calculate_null_loglikelihood({1: 1, 2: 1})
     return b, len(next(iter(data.values())))
 
@@ -1561,7 +1671,7 @@ def real_tasks(tier, seed):
     for model in REAL_MODELS:
         n = REAL_N[model]
         pool = tape_pool(n)[:5 if tier == 'quick' else 6]
-        if model == 'logit2i' and tier == 'quick':
+        if model in ('logit2i', 'ls1u', 'logit2u') and tier == 'quick':
             pool = pool[:4]
         sizes = (3,) if tier == 'quick' else (2, 3, 4)
         tapes = [None] + [list(c) for b in sizes for c in itertools.combinations(range(len(pool)), b)]
@@ -1627,6 +1737,8 @@ def check_real(model, tape, seed, rec, sample=False, thr='default'):
             raise
         return
     m = m_from_results(r)
+    if real_units(model, seed):
+        m['unit'] = real_units(model, seed)
     if not rs.is_psd(rs.neg(rs.fmat(m['hessian']))):
         rec.count('skipped_out_of_domain_hessian_not_nsd')
         rec.case(None, (model, tape, 'not-nsd'), outcome='real-not-nsd')
